@@ -25,6 +25,7 @@ DOC = {
  "C17.R6": "GetSessions inserts only on the true edge of authenticated_sessions.contains; that set is inserted into only by commit_authenticated, called only from the ConnectionAuthenticated arm",
  "C17.R8": "challenge_digest feeds the hash the complete cookie (as_bytes of the parameter, no slicing/capping) and the complete challenge; the hash consumes the assembled buffer whole",
  "C17.R9": "the keyed input of the handshake digest is bound to the exchange: handle_auth derives the secret it gives the auth machines from more than the bare cookie (a call combining it with the endpoint names / role), or challenge_digest has a further input",
+ "C17.R10": "= C18.R2: every election (check, commit, is_elected) draws its candidates from the authenticated sessions only (candidates_for_peer with the constant authenticated_only = true; the only unauthenticated candidate ever added is the caller itself): a connection that merely claimed a peer name cannot displace, veto or evict an authenticated session",
  "C17.R7": "a Close result stops the session (handle_auth's is_close edge calls stop on itself and the transport)",
 }
 
@@ -582,6 +583,11 @@ def r9(run, db):
               "all %d handshake steps hand the auth machines the bare cookie and challenge_digest(secret, challenge) has no further input: the digest a client-side session computes for a challenge chosen by its (unauthenticated) server is exactly what a server-side session of the same node expects -- a peer that never knew the cookie can authenticate by reflecting the node's own challenge between two connections" % len(bare), f.where())
 
 
+def r10(run, db):
+    from . import c18
+    c18.r2(run, db)
+
+
 Q = ["rc"]
 TH = ["rc", "rcatr"]
-RULES = [{"id": "C17.R%d" % i, "fn": f, "quick": Q, "thorough": TH} for i, f in enumerate([r1, r2, r3, r4, r5, r6, r7, r8, r9], 1)]
+RULES = [{"id": "C17.R%d" % i, "fn": f, "quick": Q, "thorough": TH} for i, f in enumerate([r1, r2, r3, r4, r5, r6, r7, r8, r9, r10], 1)]
